@@ -401,6 +401,11 @@ func c08Exec(c *engine.Ctx, cs c08Case, onState func(multiset, key string)) {
 			if alo > ahi || blo > bhi || math.Max(alo, blo) > math.Min(ahi, bhi) {
 				want = false
 			}
+			// a dimension without data (+Inf,-Inf) against an interval with an infinite end: comparing
+			// end points says "meet", the empty set says "do not" - the property does not decide, skip
+			if (alo > ahi && (math.IsInf(blo, 0) || math.IsInf(bhi, 0))) || (blo > bhi && (math.IsInf(alo, 0) || math.IsInf(ahi, 0))) {
+				return
+			}
 		}
 		var got bool
 		if p, _ := engine.Guard(func() { got = a.Overlaps(q, b) }); p != nil {
@@ -758,7 +763,8 @@ func c08Run(c *engine.Ctx) {
 	// (c2) queries in a narrower layout than the boxes: XY queries on XY/XYZ/XYM/XYZM boxes whose
 	// extra dimensions hold an interval or nothing (+Inf,-Inf: a promoted dimension that never
 	// received an ordinate); XYZ queries on XYZ/XYZM boxes
-	ivs := []iv{{math.Inf(1), math.Inf(-1)}, {0, 1}, {1, 3}, {2, 2}}
+	// (intervals with infinite ends included: [0,+Inf], the single value +Inf, [-Inf,0], -Inf, everything)
+	ivs := []iv{{math.Inf(1), math.Inf(-1)}, {0, 1}, {1, 3}, {2, 2}, {0, math.Inf(1)}, {math.Inf(1), math.Inf(1)}, {math.Inf(-1), 0}, {math.Inf(-1), math.Inf(-1)}, {math.Inf(-1), math.Inf(1)}}
 	extras := []iv{{math.Inf(1), math.Inf(-1)}, {5, 6}}
 	type nbox struct {
 		l geom.Layout
